@@ -1,5 +1,5 @@
 /* C20, real threads on the real kernel (built with ThreadSanitizer): N threads each run complete
- * start / communicate / wait / destroy cycles on their own children; one reader and one writer thread
+ * start / poll / write / poll / read or drain / wait / destroy cycles on their own children; one reader and one writer thread
  * share a child; every thread reads its own reproc_strerror text.  Cross-talk (wrong bytes, wrong status,
  * missing end-of-file) is reported on stdout as FAIL lines; data races are reported by TSan (exit code 66).
  *   thrtest <threads> <cycles>
@@ -12,6 +12,17 @@
 #include <stdlib.h>
 #include <string.h>
 #include <reproc/reproc.h>
+#include <reproc/drain.h>
+
+struct acc { char *buf; int n, cap; };
+static int acc_sink(REPROC_STREAM stream, const uint8_t *b, size_t n, void *ctx)
+{
+  struct acc *a = ctx;
+  if (stream != REPROC_STREAM_OUT || n == 0) return 0;
+  if (a->n + (int) n > a->cap) return -7;
+  memcpy(a->buf + a->n, b, n); a->n += (int) n;
+  return 0;
+}
 
 static int cycles = 20;
 static int failures;
@@ -33,9 +44,23 @@ static void *cycle_thread(void *arg)
     if (r < 0) { fail("start", tid, r, c); reproc_destroy(p); continue; }
     char msg[256]; int n = snprintf(msg, sizeof msg, "thread-%d-cycle-%d-%s", tid, c, "payload-payload-payload");
     int off = 0;
+    /* polling one's own child while other threads poll theirs: each with its own interests and answer */
+    reproc_event_source es = { p, (tid % 2) ? REPROC_EVENT_IN : REPROC_EVENT_IN | REPROC_EVENT_EXIT, 0 };
+    r = reproc_poll(&es, 1, 10000);
+    if (r != 1 || es.events != REPROC_EVENT_IN) fail("poll-in", tid, r, es.events);
     while (off < n) { r = reproc_write(p, (uint8_t *) msg + off, (size_t) (n - off)); if (r < 0) { fail("write", tid, r, c); break; } off += r; }
     reproc_close(p, REPROC_STREAM_IN);   /* the child must see end-of-file: no other child may hold this pipe */
+    es.interests = REPROC_EVENT_OUT; es.events = 0;
+    r = reproc_poll(&es, 1, 10000);
+    if (r != 1 || es.events != REPROC_EVENT_OUT) fail("poll-out", tid, r, es.events);
     char got[512]; int g = 0;
+    if (c % 2) {  /* every other cycle through reproc_drain */
+      struct acc a = { got, 0, (int) sizeof got };
+      reproc_sink sk = { acc_sink, &a };
+      r = reproc_drain(p, sk, sk);
+      if (r != 0) fail("drain", tid, r, c);
+      g = a.n; r = REPROC_EPIPE;
+    } else
     for (;;) { r = reproc_read(p, REPROC_STREAM_OUT, (uint8_t *) got + g, sizeof got - (size_t) g); if (r < 0) break; g += r; }
     if (r != REPROC_EPIPE) fail("read-end", tid, r, c);
     if (g != n || memcmp(got, msg, (size_t) n) != 0) fail("echo-differs", tid, g, n);
